@@ -142,7 +142,8 @@ impl LdapConnAsyncT {
 //@end
 
 //@lift name=create_tls_stream file=src/conn.rs fn=create_tls_stream nth=1
-//@ sub "LdapConnAsync::create_connector(&settings)" => "LdapConnAsyncT::create_connector(&settings)"
+//@ sub "LdapConnAsync::create_connector(" => "LdapConnAsyncT::create_connector(" count=*
+//@ sub "Self::create_connector(" => "LdapConnAsyncT::create_connector(" count=*
 //@ sub "Result<TlsStream<TcpStream>>" => "Result<TlsStream>"
 //@ sub ".map_err(LdapError::from)" => ".verif_map_tls_err()"
 //@ ret r
